@@ -56,7 +56,7 @@ class Obj(Engine):
                        'SignatureHash / RawSignatureHash', 'VerifyScript']
     stubbed_components = ['nothing: no environment is involved in these properties']
     sim_time_note = 'no clock or timers: the explored dimension is the order of operations on an aliased object graph'
-    nontrivial_rule = ('run = one history (systematic preamble: every history of length <= 3 over a 27-operation alphabet on two initial transactions; then seeded histories of '
+    nontrivial_rule = ('run = one history (systematic preamble: every history of length <= 3 over a 28-operation alphabet on two initial transactions; then seeded histories of '
                        '4-60 operations) on a pool of <= 6 handles; distinct = distinct trace-shape digest (operation kinds and targets); '
                        'non-trivial = >= 2 handles interacted (copy/snapshot/block/eq) or a cache was planted before an edit')
     quick_runs = 4000
@@ -86,7 +86,9 @@ class Obj(Engine):
                     'stacks': [gen.gen_stack(rng) for _ in range(8)]}
         if r < 0.64:
             return {'op': 'snapshot', 'h': h, 'part': rng.choice(['self', 'self', 'vin', 'vout', 'prevout']), 'i': i}
-        if r < 0.66:
+        if r < 0.655:
+            return {'op': 'retype', 'h': h, 'which': rng.choice(['vin', 'vout', 'both']), 'to': rng.choice(['tuple', 'tuple', 'list'])}
+        if r < 0.67:
             return {'op': 'badset', 'h': h, 'field': rng.choice(['nLockTime', 'nVersion', 'vout.nValue', 'vin.nSequence']), 'i': i}
         if r < 0.70:
             return {'op': 'mcopy', 'h': h, 'part': rng.choice(['self', 'self', 'vin', 'vout', 'prevout']), 'i': i}
@@ -177,6 +179,7 @@ class Obj(Engine):
                 {'op': 'rt', 'h': 0, 'enc': 'canon', 'sel': 0},
                 {'op': 'rt', 'h': 1, 'enc': 'marker-empty', 'sel': 0},
                 {'op': 'rt', 'h': 0, 'enc': 'nonminimal', 'sel': 0},
+                {'op': 'retype', 'h': 0, 'which': 'both', 'to': 'tuple'},
             ]
             type(self).ALPHABET = A
         return self.ALPHABET
@@ -481,6 +484,20 @@ class Obj(Engine):
             ctx.probe('%s.%s' % (op, kind))
             log('%s/%s' % (kind, part), [hidx, k2])
             return k2
+        if op == 'retype':
+            # the containers of a mutable transaction are whatever sequence the caller handed in:
+            # a tuple of mutable inputs is as legitimate as a list
+            hidx = a['h'] % len(self.pool)
+            h = self.pool[hidx]
+            if h.kind != 'tx' or not h.mutable:
+                log('skip')
+                return None
+            conv_ = tuple if a['to'] == 'tuple' else list
+            for which in (('vin', 'vout') if a['which'] == 'both' else (a['which'],)):
+                setattr(h.obj, which, conv_(getattr(h.obj, which)))
+            ctx.probe('container-retyped.' + a['to'])
+            log(a['which'], a['to'])
+            return hidx
         if op == 'badset':
             hidx = a['h'] % len(self.pool)
             h = self.pool[hidx]
